@@ -149,7 +149,7 @@ func (w *World) renderQuery(o *Obl, forCVC5 bool) string {
 			fmt.Fprintf(&b, "(assert (and (>= (Sl_Int_len %s) 0) (<= (Sl_Int_len %s) (str.len %s)) (= (= (Sl_Int_len %s) 0) (= (str.len %s) 0)) (not (Sl_Int_nil %s))))\n", r, r, k, r, k, r)
 			fmt.Fprintf(&b, "(assert (=> (and (>= (str.len %s) 1) (< (str.to_code (str.at %s 0)) 128)) (= (select (Sl_Int_arr %s) 0) (str.to_code (str.at %s 0)))))\n", k, k, r, k)
 		}
-		if needRQ {
+		if needRQ && o.Kind != "vacuity" {
 			// applied to a bound variable / definition parameter: the same facts, pattern-guarded
 			b.WriteString("(assert (forall ((s!r String)) (! (and (>= (Sl_Int_len (runes_of s!r)) 0) (<= (Sl_Int_len (runes_of s!r)) (str.len s!r)) (= (= (Sl_Int_len (runes_of s!r)) 0) (= (str.len s!r) 0)) (not (Sl_Int_nil (runes_of s!r))) (=> (and (>= (str.len s!r) 1) (< (str.to_code (str.at s!r 0)) 128)) (= (select (Sl_Int_arr (runes_of s!r)) 0) (str.to_code (str.at s!r 0))))) :pattern ((runes_of s!r)))))\n")
 		}
@@ -174,7 +174,9 @@ func (w *World) renderQuery(o *Obl, forCVC5 bool) string {
 				}
 			}
 		}
-		if needQ {
+		if needQ && o.Kind != "vacuity" {
+			// (a vacuity guard asks for a model: the quantified library axioms are left out there --
+			// they cannot make the user's assumptions contradictory unless these talk about itoa itself)
 			// itoa applied to bound variables / definition parameters: pattern-guarded axioms
 			b.WriteString("(assert (forall ((k!i Int)) (! (= (itoa_inv (itoa k!i)) k!i) :pattern ((itoa k!i)))))\n")
 			b.WriteString("(assert (forall ((k!i Int)) (! (=> (>= k!i 0) (str.in_re (itoa k!i) (re.+ (re.range \"0\" \"9\")))) :pattern ((itoa k!i)))))\n")
@@ -331,6 +333,21 @@ func (w *World) solveAll(obls []*Obl, opt SolveOpts) {
 	}
 	close(jobs)
 	wg.Wait()
+	// a vacuity guard asks for satisfiability: `sat` is the good answer, `unsat` means the
+	// assumptions contradict each other (or no return can be reached)
+	for _, o := range obls {
+		if o.Kind != "vacuity" || o.vacDone {
+			continue
+		}
+		o.vacDone = true
+		switch o.Status {
+		case "sat":
+			o.Status, o.Model = "unsat", ""
+		case "unsat":
+			o.Status = "sat"
+			o.Model = "VACUOUS: the assumptions are contradictory / no return is reachable"
+		}
+	}
 }
 
 func (w *World) solveOne(o *Obl, text string, opt SolveOpts) {
